@@ -58,7 +58,11 @@ def check_templates(ctx):
         raise AnalysisError("C05.model", "_construct_split_relative_regex templates changed: %s" % sorted(lits))
     s = ctx.ix.func("dateparser.languages.dictionary:Dictionary.split")
     t = " ".join(ast.unparse(s.node).split())
-    i1, i2 = t.find("split_relative_regex.split(string)"), t.find("self._split_by_known_words(token, keep_formatting)")
+    import re as _re
+    m1 = _re.search(r"(\w+) = self\._get_split_relative_regex_cache\(\)", t)
+    i1 = t.find("%s.split(string)" % m1.group(1)) if m1 else -1
+    m2 = _re.search(r"self\._split_by_known_words\((\w+), keep_formatting\)", t)
+    i2 = m2.start() if m2 else -1
     if -1 in (i1, i2) or i1 > i2:
         raise AnalysisError("C05.model", "Dictionary.split no longer splits by relative patterns before known words")
     p = ctx.ix.module_const("dateparser.languages.dictionary", "PARENTHESES_PATTERN")
